@@ -360,6 +360,100 @@ let cycle_query (toks : string list) (rhs : string) : string =
   | "PROP" :: _ -> "ok"
   | _ -> "?unknown-query"
 
+(* ---------------- C18 grid generation ---------------- *)
+let rec split_bar (toks : string list) : string list list =
+  match toks with
+  | [] -> [[]]
+  | "|" :: r -> [] :: split_bar r
+  | x :: r -> (match split_bar r with h :: t -> (x :: h) :: t | [] -> [[x]])
+
+let q_int (n : int) : q = { qnum = z_of_int n; qden = Big_int_Z.unit_big_int }
+let qop f (a : q) (b : q) : q = qt (f (tq a) (tq b))
+let q_lt (a : q) (b : q) : bool = qsc.sltb (tq a) (tq b)
+let q_floor (x : q) : int = int_of_z (Big_int_Z.div_big_int x.qnum x.qden)   (* floor division (qden > 0) *)
+
+let gridgen_query (toks : string list) (rhs : string) : string =
+  match toks with
+  | ["ANISO"; nr_exp; a; p] ->
+    (match aniso_indices (zs nr_exp) (zs a) (zs p) with
+     | None -> "none"
+     | Some x -> Printf.sprintf "%s %s %s %s" (zi x.an_se) (zi x.an_ee) (zi x.an_nref) (zi x.an_nequi))
+  | ["GEN"; r0; rmax; nr_exp; nt_exp; rr; a; dv; p] ->
+    let impl = split_ws rhs in
+    let r0q = qf r0 and rmq = qf rmax and rrq = qf rr in
+    let a = ios a and dvi = ios dv and nr_exp = ios nr_exp and nt_exp = ios nt_exp in
+    let sizes_ok nr_temp_opt =
+      (match impl with
+       | ["ok"; nr; nt] ->
+         let nr = ios nr and nt = ios nt in
+         let two_dv = 1 lsl dvi in
+         if (nr - 1) mod two_dv <> 0 then "CHECK FAIL nr - 1 is not divisible by 2^divideBy2"
+         else begin
+           let nr_mid = (nr - 1) / two_dv + 1 in
+           let exp_nt = int_of_z (gen_ntheta (z_of_int nt_exp) (z_of_int nr_mid) (z_of_int dvi)) in
+           let exp_nr = (match nr_temp_opt with Some t -> int_of_z (gen_nr (z_of_int t) (z_of_int dvi)) | None -> nr) in
+           if nr_mid mod 2 = 0 then "CHECK FAIL the number of radii before divideBy2 is even"
+           else if nr <> exp_nr then Printf.sprintf "CHECK FAIL nr: model %d" exp_nr
+           else if nt <> exp_nt then Printf.sprintf "CHECK FAIL ntheta: model %d" exp_nt
+           else "CHECK ok"
+         end
+       | _ -> "CHECK FAIL the model accepts these parameters, the implementation rejected them") in
+    if a = 0 then sizes_ok (Some ((1 lsl (nr_exp - 1)) + 1))
+    else begin
+      let pct_ok = not (q_lt rrq r0q) && q_lt rrq rmq in
+      if not pct_ok then (if impl = ["rejected"] then "CHECK ok" else "CHECK FAIL refinement radius outside [R0,Rmax) must be rejected")
+      else begin
+        let pz = if p = "-" then z_of_int 0 else zs p in
+        match aniso_accept (z_of_int nr_exp) (z_of_int a) pz with
+        | None -> if impl = ["rejected"] then "CHECK ok" else "CHECK FAIL the window does not fit (model rejects), the implementation accepted"
+        | Some x ->
+          if p = "-" then "CHECK FAIL no window indices were traced for an accepted anisotropic division"
+          else if not (aniso_in_bounds x) then "CHECK FAIL accepted window reads out of bounds"
+          else begin
+            (* p = floor(nr * percentage) against the exact value (one unit of slack only at an integer boundary) *)
+            let v = qop qsc.smul (q_int (int_of_z x.an_nr)) (qop qsc.sdiv (qop qsc.ssub rrq r0q) (qop qsc.ssub rmq r0q)) in
+            let fl_v = q_floor v in
+            let frac = float_of_q (qop qsc.ssub v (q_int fl_v)) in
+            let pi = ios p in
+            if pi <> fl_v && not ((frac < 1e-9 && pi = fl_v - 1) || (frac > 1.0 -. 1e-9 && pi = fl_v + 1))
+            then Printf.sprintf "CHECK FAIL floor(nr*percentage): exact %d" fl_v
+            else sizes_ok None
+          end
+      end
+    end
+  | "RADU" :: r0 :: rmax :: nr_exp :: dv :: "|" :: radii ->
+    let m = q_gen_radii_uniform (tq (qf r0)) (tq (qf rmax)) (nat_of_int (ios nr_exp)) (nat_of_int (ios dv)) in
+    let eps = q_of_float (1e-14 *. fl rmax) in
+    if q_close_b (tq eps) (List.map (fun s -> tq (qf s)) radii) m then "CHECK ok"
+    else Printf.sprintf "CHECK FAIL model (%d radii): %s" (List.length m) (String.concat " " (List.map (fun x -> qhex (qt x)) m))
+  | "RADV" :: r0 :: rmax :: "|" :: radii ->
+    let l = List.map (fun s -> tq (qf s)) radii in
+    let eps = tq (q_of_float (1e-14 *. fl rmax)) in
+    if q_radii_valid_b (tq (qf r0)) (tq (qf rmax)) eps l then "CHECK ok"
+    else if not (q_increasing_b l) then "CHECK FAIL radii are not strictly increasing"
+    else if not (q_midpoints_b eps l) then "CHECK FAIL an odd-numbered radius is not the midpoint of its neighbours"
+    else "CHECK FAIL the first / last radius is not exactly R0 / Rmax"
+  | "ANG" :: n :: dv :: "|" :: angles ->
+    let l = List.map qf angles in
+    let tau = List.nth l (List.length l - 1) in
+    let m = q_gen_angles (tq tau) (nat_of_int (ios n)) (nat_of_int (ios dv)) in
+    let eps = q_of_float (1e-14 *. float_of_q tau) in
+    if q_close_b (tq eps) (List.map tq l) m && ios n mod 2 = 0 then "CHECK ok"
+    else Printf.sprintf "CHECK FAIL model (%d angles): %s" (List.length m) (String.concat " " (List.map (fun x -> qhex (qt x)) m))
+  | "NEST" :: "|" :: rest ->
+    (match split_bar rest with
+     | [fine; coarse] ->
+       let f = List.map qf fine and c = List.map qf coarse in
+       let mx = List.fold_left (fun acc x -> Float.max acc (Float.abs (float_of_q x))) 0.0 f in
+       let eps = q_of_float (1e-14 *. mx) in
+       if q_close_b (tq eps) (List.map tq (every_second f)) (List.map tq c) then "CHECK ok"
+       else "CHECK FAIL the grid of one refinement less is not the every-second-node subgrid"
+     | _ -> "?malformed")
+  | ["LEV"; nr; nt; ml] ->
+    (match choose_levels (zs nr) (zs nt) (zs ml) with None -> "rejected" | Some l -> zi l)
+  | "PROP" :: _ -> "ok"
+  | _ -> "?unknown-query"
+
 let () =
   let mode = if Array.length Sys.argv > 1 then Sys.argv.(1) else "" in
   let handler = match mode with
@@ -369,6 +463,7 @@ let () =
     | "operator" -> operator_query
     | "smoother" -> smoother_query
     | "cycle" -> cycle_query
+    | "gridgen" -> gridgen_query
     | _ -> prerr_endline ("unknown mode " ^ mode); exit 2 in
   try
     while true do
